@@ -72,6 +72,11 @@ pub struct Scn {
     pub threads: usize,
     #[serde(default)]
     pub picks: usize,
+    /// handler mode: the configured target is not a usable address ("" from a trailing comma in the
+    /// target list, an address without a port, a port that is not a number): nothing can be
+    /// connected to, which is a bad gateway like a refused connection
+    #[serde(default)]
+    pub bad_target: Option<String>,
 }
 
 fn garbage_bytes(kind: &str, rng_seed: u64) -> Vec<u8> {
@@ -229,7 +234,7 @@ impl Prop for C09 {
         }
     }
     fn rule(&self) -> &'static str {
-        "One case = one client request (C02 generator) proxied to one scripted upstream behaviour. Run indices walk the cut offsets of generated valid responses (39 status codes; Content-Length / chunked with random chunkings and hex case / close-delimited / body-less) so that, for every generated response in the batch, EVERY byte offset is cut once by FIN and once by RST; interleaved with the other behaviours: valid (closing and keep-alive upstreams), garbage (8 kinds), connection refused, black-holed SYN, accept-then-silence, accept-then-close, stall after k bytes, nothing for 30..90% of the timeout then a partial response then silence, one byte per 50 virtual ms, a 16-byte receive window drained 16 bytes at a time every 30..90% of the timeout or never (each write of the proxy makes progress, the request as a whole does not get through in time); through proxy_request directly and through the server's proxy_handler (prefix stripping for the patterns /api/*, /*, /a/b/*, /api* with paths in which the literal prefix occurs once, twice or three times in a row, alone, or again further down), plus target-selection cases (1..4 targets; 1..8 threads selecting through the real EqMutex<LoadBalancer>, or 1..8 concurrent requests through the real proxy_handler to upstreams that answer with their index). Distinct = distinct (behaviour, status, framing, cut offset class, outcome); non-trivial = the upstream accepted a connection or a fault was injected."
+        "One case = one client request (C02 generator) proxied to one scripted upstream behaviour. Run indices walk the cut offsets of generated valid responses (39 status codes; Content-Length / chunked with random chunkings and hex case / close-delimited / body-less) so that, for every generated response in the batch, EVERY byte offset is cut once by FIN and once by RST; interleaved with the other behaviours: valid (closing and keep-alive upstreams), garbage (8 kinds), connection refused, black-holed SYN, accept-then-silence, accept-then-close, a configured target that is not a usable address (empty, no port, bad port), stall after k bytes, nothing for 30..90% of the timeout then a partial response then silence, one byte per 50 virtual ms, a 16-byte receive window drained 16 bytes at a time every 30..90% of the timeout or never (each write of the proxy makes progress, the request as a whole does not get through in time); through proxy_request directly and through the server's proxy_handler (prefix stripping for the patterns /api/*, /*, /a/b/*, /api* with paths in which the literal prefix occurs once, twice or three times in a row, alone, or again further down), plus target-selection cases (1..4 targets; 1..8 threads selecting through the real EqMutex<LoadBalancer>, or 1..8 concurrent requests through the real proxy_handler to upstreams that answer with their index). Distinct = distinct (behaviour, status, framing, cut offset class, outcome); non-trivial = the upstream accepted a connection or a fault was injected."
     }
     fn assumptions(&self) -> Vec<String> {
         vec![
@@ -240,7 +245,7 @@ impl Prop for C09 {
         ]
     }
     fn expected_counters(&self) -> Vec<&'static str> {
-        vec!["c09.valid", "c09.cut_fin", "c09.cut_rst", "c09.garbage", "c09.refuse", "c09.blackhole", "c09.silence", "c09.accept_close", "c09.stall", "c09.late-stall", "c09.trickle", "c09.slow-reader", "c09.handler_mode", "c09.balance_through_handler", "c09.handler_path.prefix-repeated", "c09.handler_path.equal-prefix", "c09.handler_path.prefix-later", "c09.balance_mode", "c09.framing.chunked", "c09.framing.close", "c09.framing.cl", "c09.framing.none", "c09.keepalive_upstream", "net.connect_refused", "net.connect_blackholed", "net.rst_sent"]
+        vec!["c09.valid", "c09.cut_fin", "c09.cut_rst", "c09.garbage", "c09.refuse", "c09.blackhole", "c09.silence", "c09.accept_close", "c09.stall", "c09.late-stall", "c09.trickle", "c09.slow-reader", "c09.handler_mode", "c09.unusable_target_address", "c09.balance_through_handler", "c09.handler_path.prefix-repeated", "c09.handler_path.equal-prefix", "c09.handler_path.prefix-later", "c09.balance_mode", "c09.framing.chunked", "c09.framing.close", "c09.framing.cl", "c09.framing.none", "c09.keepalive_upstream", "net.connect_refused", "net.connect_blackholed", "net.rst_sent"]
     }
     fn real_vs_stub(&self) -> (Vec<&'static str>, Vec<&'static str>) {
         (vec!["humphrey::http::proxy::proxy_request", "Response::from_stream + parse_chunk", "From<Request> for Vec<u8>", "humphrey_server::proxy::{proxy_handler, LoadBalancer::select_target, EqMutex}", "Lcg"], vec!["TcpStream / connect_timeout / timeouts (humsim::net)", "Instant/SystemTime (virtual)", "the upstream is a scripted reference server"])
@@ -314,7 +319,12 @@ impl Prop for C09 {
             lb_random: rng.chance(1, 2),
             threads: rng.range(1, 8) as usize,
             picks: rng.range(1, 6) as usize,
+            bad_target: None,
         };
+        let mut scn = scn;
+        if scn.mode == "handler" && Rng::new(humsim::rng::mix(&[run_seed(seed, "C09", idx), 0xC09_0002])).chance(1, 10) {
+            scn.bad_target = Some(["", "10.1.0.1", "10.1.0.1:http", "10.1.0.1:99999"][(idx % 4) as usize].to_string());
+        }
         serde_json::to_value(scn).unwrap()
     }
 
@@ -382,7 +392,7 @@ impl Prop for C09 {
                 let mut cfg = Config::default();
                 cfg.logging.console = false;
                 let state = Arc::new(AppState::from(cfg));
-                let lb = EqMutex::new(LoadBalancer { targets: vec![up_addr.to_string()], mode: LoadBalancerMode::RoundRobin, index: 0, lcg: Lcg::new() });
+                let lb = EqMutex::new(LoadBalancer { targets: vec![scn.bad_target.clone().unwrap_or_else(|| up_addr.to_string())], mode: LoadBalancerMode::RoundRobin, index: 0, lcg: Lcg::new() });
                 proxy_handler(req, state, &lb, &scn.matches)
             } else {
                 proxy_request(&req, up_addr, Duration::from_millis(timeout_ms))
@@ -392,7 +402,13 @@ impl Prop for C09 {
             *result2.lock().unwrap() = Some((u16::from(resp.status_code), headers, resp.body.clone(), dt));
         });
         rr.absorb(&outcome);
-        let up = &scn.upstream;
+        let mut up_eff = scn.upstream.clone();
+        if handler && scn.bad_target.is_some() {
+            // nothing is ever connected to: whatever the upstream was scripted to do, the answer is 502
+            up_eff.kind = "refuse".into();
+            rr.count("c09.unusable_target_address", 1);
+        }
+        let up = &up_eff;
         let kind = up.kind.as_str();
         rr.count(&format!("c09.{}", match kind { "cut" => if up.cut_kind == "rst" { "cut_rst" } else { "cut_fin" }, "accept-close" => "accept_close", k => k }), 1);
         if handler {
